@@ -145,15 +145,32 @@ Section Run.
     ((if r then "R" else "r") ++ (if p then "P" else "p") ++ (if d then "D" else "d")
      ++ (if hl then "H" else "h"))%string.
 
-  (** flags for every prefix that ends with a [Process] *)
-  Fixpoint scopes (w0 : world N) (done : list (event N)) (rest : list (event N)) : string :=
-    match rest with
+  (** the same flags for every prefix that ends with a [Process], in one pass over the
+      history ([p] is [paths_ok] of the whole history, which implies it for every prefix) *)
+  Fixpoint scopes_from (w : option (world N)) (u : fs) (c : N) (d : dirty) (p rk dk hk : bool)
+           (h : list (event N)) : string :=
+    match h with
     | [] => ""
-    | e :: rest' =>
-      let done' := (done ++ [e])%list in
-      ((match e with Process => (scope_flags w0 done' ++ " ")%string | _ => "" end)
-       ++ scopes w0 done' rest')%string
+    | e :: h' =>
+      let rk' := rk && call_ok N cinp u e && (match e with Process => is_clean d | _ => true end) in
+      let dk' := dk && match w with Some w0 => dir_event_ok N (w_tree w0) e | None => true end in
+      let hk' := hk && match e with Process => healthy N (xform_of tbl) cinp c u | _ => true end in
+      let w' := match w with
+                | Some w0 => match cstep w0 e with Running w1 => Some w1 | _ => None end
+                | None => None
+                end in
+      let c' := match e with SetCfg c1 => c1 | _ => c end in
+      ((match e with
+        | Process => ((if rk' then "R" else "r") ++ (if p then "P" else "p") ++ (if dk' then "D" else "d")
+                      ++ (if hk' then "H" else "h") ++ " ")%string
+        | _ => ""
+        end)
+       ++ scopes_from w' (user_step N u e) c' (track N cinp u d e) p rk' dk' hk' h')%string
     end.
+
+  Definition scopes (w0 : world N) (h : list (event N)) : string :=
+    scopes_from (Some w0) (w_fs w0) (w_cfg w0) (mkDirty [] (fs_collect (w_fs w0) cinp) [])
+                (paths_ok N cinp coutp (w_fs w0) h) true true true h.
 End Run.
 
 Definition c10_case := (list (N * N) * list xentry * fs * list (list (event N) * obs))%type.
@@ -166,7 +183,7 @@ Definition c10_model (c : c10_case) : string :=
 (** the flags at every [Process], then [=] and the flags of the whole history *)
 Definition c10_scopes (c : c10_case) : string :=
   let '(hs, tbl, f0, gs) := c in
-  (scopes hs tbl (c10_world0 f0) [] (flat_map fst gs) ++ "="
+  (scopes hs tbl (c10_world0 f0) (flat_map fst gs) ++ "="
    ++ scope_flags hs tbl (c10_world0 f0) (flat_map fst gs))%string.
 
 (** * The pruning of [clean_files] on a real directory
